@@ -20,9 +20,9 @@ tn=$(grep -o 'func Test[A-Za-z0-9_]*' "$demo" | sed 's/func //' | paste -sd'|' |
 ( cd "$wt" && go build ./... > "$dst/build.log" 2>&1 ); build=$?
 ( cd "$wt" && go test -vet=off -count=1 -timeout 300s -run "^$tn\$" ./$pkg/ > "$dst/demo_with.log" 2>&1 ); with=$?
 rm -f "$wt/$pkg/$dn"
-( cd "$wt" && go test -vet=off -count=1 -timeout 25m ./internal/... > "$dst/suite_with.log" 2>&1 ); suite=$?
+( cd "$wt" && go test -vet=off -count=1 -timeout 8m ./internal/... > "$dst/suite_with.log" 2>&1 ); suite=$?
 if [ $suite -ne 0 ]; then  # the jobs package is flaky under load: retry the failing packages once
-  ( cd "$wt" && go test -vet=off -count=1 -timeout 25m ./internal/... > "$dst/suite_with_retry.log" 2>&1 ); suite=$?
+  ( cd "$wt" && go test -vet=off -count=1 -timeout 8m ./internal/... > "$dst/suite_with_retry.log" 2>&1 ); suite=$?
 fi
 git -C /repo worktree remove --force "$wt"
 python3 - "$id" "$prop" "$pkg" "$tn" $without $build $with $suite <<'PY'
